@@ -697,3 +697,112 @@ func memFnsNoSkip() []string {
 	}
 	return out
 }
+
+// ---- a source failure that follows a rejection by the grammar, on the same reader ------------------------
+
+// AfterRejectCase: the first call on a BufferReader is rejected for a reason that lies in the bytes (depth limit,
+// negative size, unknown type, bad version); later calls on the same reader run into the end of the source,
+// which fails with error kind K.
+type AfterRejectCase struct {
+	Rej   int  `json:"rej"` // 0 depth limit, 1 negative size (ReadString), 2 negative size (Skip), 3 unknown type, 4 bad version
+	K     int  `json:"k"`
+	Chunk int  `json:"chunk"`
+	With  bool `json:"with"`
+}
+
+func checkAfterReject(c AfterRejectCase, cv *cov) (v *evid.Violation) {
+	var data []byte
+	switch c.Rej {
+	case 0:
+		for i := 0; i < 66; i++ {
+			data = append(data, byte(ref.LIST), 0, 0, 0, 1)
+		}
+		data = append(data, byte(ref.BYTE), 0, 0, 0, 0)
+	case 1, 2:
+		data = []byte{0xff, 0xff, 0xff, 0xff, 1, 2, 3}
+	case 3:
+		data = []byte{1, 2, 3, 4, 5}
+	case 4:
+		data = []byte{0, 0, 0, 1, 0, 0, 0, 1, 'm', 0, 0, 0, 1, 9}
+	default:
+		return nil
+	}
+	plan := faultio.Plan{Chunks: []int{c.Chunk}, ErrAt: -1, ErrKind: c.K, WithData: c.With}
+	sr := faultio.NewScriptReader(data, plan)
+	injected := sr.Plan.Err()
+	wantT := []int32{thrift.DEPTH_LIMIT, thrift.NEGATIVE_SIZE, thrift.NEGATIVE_SIZE, thrift.INVALID_DATA, thrift.BAD_VERSION}[c.Rej]
+	body := func() {
+		r := thrift.NewBufferReader(bufiox.NewDefaultReader(sr))
+		defer r.Recycle()
+		var err error
+		switch c.Rej {
+		case 0:
+			err = r.Skip(thrift.LIST)
+		case 1:
+			_, err = r.ReadString()
+		case 2:
+			err = r.Skip(thrift.STRING)
+		case 3:
+			err = r.Skip(thrift.TType(0x40))
+		default:
+			_, _, _, err = r.ReadMessageBegin()
+		}
+		var pe *thrift.ProtocolException
+		if err == nil || !errors.As(err, &pe) || pe.TypeId() != wantT {
+			v = evid.Failf("rejection %d: got %v (%T), want a protocol exception with type id %d", c.Rej, err, err, wantT)
+			return
+		}
+		if errors.Is(err, injected) && c.K >= 2 {
+			v = evid.Failf("rejection %d: the error %q matches the source error %q although the source has not failed", c.Rej, err, injected)
+			return
+		}
+		// the caller goes on reading until the source ends
+		for i := 0; i < len(data)+2; i++ {
+			_, e := r.ReadI64()
+			if e == nil {
+				continue
+			}
+			if !errors.Is(e, injected) {
+				v = evid.Failf("on a BufferReader whose first call had been rejected (%q), the source later ended with %q; ReadI64 returned %q (%T), which does not match the source error under errors.Is", err, injected, e, e)
+			}
+			cv.nontrivial = true
+			return
+		}
+		v = evid.Failf("ReadI64 kept succeeding beyond the %d bytes of the stream", len(data))
+	}
+	if p, st := evid.Safe(body); p != nil {
+		return &evid.Violation{Msg: fmt.Sprintf("panic: %v", p), Stack: st}
+	}
+	return v
+}
+
+func init() { register("c17_after_rejection", checkAfterReject) }
+
+func TestC17_AfterRejection(t *testing.T) {
+	rec := evid.New("C17", "c17_after_rejection", "enumeration: 5 rejections by the grammar (depth limit in Skip, negative size in ReadString and in Skip, unknown type in Skip, bad version in ReadMessageBegin; each must carry its own type id and must not match the source error) x 8 source error values x chunk sizes {0, 1, 3} x error with/after the last data: the same BufferReader is then read to the end of its source, and the failure it reports there must match the source error; distinct by construction")
+	defer rec.Flush()
+	b := evid.NewBatch()
+	for rej := 0; rej < 5; rej++ {
+		for k := 0; k < nErrKinds; k++ {
+			for _, ch := range []int{0, 1, 3} {
+				for _, with := range []bool{false, true} {
+					c := AfterRejectCase{Rej: rej, K: k, Chunk: ch, With: with}
+					var cv cov
+					v := checkAfterReject(c, &cv)
+					b.Evals++
+					b.Distinct++
+					if cv.nontrivial {
+						b.Nontrivial++
+					}
+					if v != nil {
+						failEnum(t, rec, "c17_after_rejection", c, v)
+						rec.Merge(b)
+						return
+					}
+				}
+			}
+		}
+	}
+	rec.Merge(b)
+	rec.SetExhaustive()
+}
